@@ -327,6 +327,10 @@ Proof.
       apply (ln_atomic_ok k). cbn. now rewrite Hok.
     + (* RemoveAll *) cbn [ln_lin_ok] in Hok. apply negb_true_iff in Hok. rewrite Hok.
       apply (ln_atomic_ok k). cbn. now rewrite Hok.
+    + (* Chmod *) cbn [ln_lin_ok] in Hok. apply negb_true_iff in Hok. rewrite Hok.
+      apply (ln_atomic_ok k). cbn. now rewrite Hok.
+    + (* Chtimes *) cbn [ln_lin_ok] in Hok. apply negb_true_iff in Hok. rewrite Hok.
+      apply (ln_atomic_ok k). cbn. now rewrite Hok.
   - (* LnMkdirLocked *)
     destruct o; try contradiction; unfold ln_sec; cbn [snd fst]; unfold ln_mkdir_locked;
       cbn [ln_lin_ok] in Hok; apply negb_true_iff in Hok; rewrite Hok;
@@ -360,7 +364,7 @@ Proof. apply sections_linearizable. intros; apply ln_lin_ok_atomic. Qed.
 (* the methods with one critical section today, whatever the configuration *)
 Definition ln_single_today (o : op) : bool :=
   match o with
-  | OpenFile _ _ _ | Mkdir _ _ | MkdirAll _ _ | RemoveAll _ => false
+  | OpenFile _ _ _ | Mkdir _ _ | MkdirAll _ _ | RemoveAll _ | Chmod _ _ | Chtimes _ _ => false
   | _ => true
   end.
 Lemma ln_single_today_ok k o : ln_single_today o = true -> ln_lin_ok k o = true.
@@ -723,30 +727,52 @@ Proof.
   split; [exact Hc|now apply lin_check_mem_refutes].
 Qed.
 
+(* Chmod finds /f, a concurrent Rename moves it to /g and a Stat of /g still shows the old
+   mode; then Chmod sets the mode of the node it found: it "succeeded" on a name that was gone *)
+Definition w4_setup : list lop := [(Some 1%nat, OpenFile w_f (Z.lor o_rdwr o_create) 420)].
+Definition w4_s0 : lstate := fst (lin_replay lin_step lin_init w4_setup).
+Definition w_g : str := [47; 103]%N.
+Definition w4_progs : list (list lop) := [[(None, Chmod w_f 384)]; [(None, Rename w_f w_g); (None, Stat w_g)]].
+Definition w4_sched : list nat := [0; 0; 0; 1; 1; 1; 1; 1; 1; 0; 0; 0]%nat.
+Definition w5_progs : list (list lop) := [[(None, Chtimes w_f 1000)]; [(None, Rename w_f w_g); (None, Stat w_g)]].
+Definition w5_sched : list nat := [0; 0; 1; 1; 1; 1; 1; 1; 0; 0; 0]%nat.
+
 Theorem refuted_excl_create k : sc_open_split k = true -> refuted k lin_init.
 Proof.
-  destruct k as [a b c d]; cbn [sc_open_split sc_mkdir_setmode sc_rmall_split]; intros ->. apply (refuted_by _ _ w1_progs w1_sched);
-    destruct b, c, d; vm_compute; reflexivity.
+  destruct k as [a b c d e f]; cbn [sc_open_split sc_mkdir_setmode sc_rmall_split sc_chmod_split sc_chtimes_split]; intros ->. apply (refuted_by _ _ w1_progs w1_sched);
+    destruct b, c, d, e, f; vm_compute; reflexivity.
 Qed.
 
 (* both calls of the witness report success *)
 Lemma refuted_excl_create_both k : sc_open_split k = true ->
   map lc_res (lg_lin (ln_run k lin_init w1_progs w1_sched)) = [RHandle 0; RHandle 0].
-Proof. destruct k as [a b c d]; cbn [sc_open_split sc_mkdir_setmode sc_rmall_split]; intros ->. destruct b, c, d; vm_compute; reflexivity. Qed.
+Proof. destruct k as [a b c d e f]; cbn [sc_open_split sc_mkdir_setmode sc_rmall_split sc_chmod_split sc_chtimes_split]; intros ->. destruct b, c, d, e, f; vm_compute; reflexivity. Qed.
 
 Theorem refuted_mkdir_then_remove k : sc_mkdir_setmode k = true -> refuted k lin_init.
 Proof.
-  destruct k as [a b c d]; cbn [sc_open_split sc_mkdir_setmode sc_rmall_split]; intros ->. apply (refuted_by _ _ w2_progs w2_sched);
-    destruct a, b, d; vm_compute; reflexivity.
+  destruct k as [a b c d e f]; cbn [sc_open_split sc_mkdir_setmode sc_rmall_split sc_chmod_split sc_chtimes_split]; intros ->. apply (refuted_by _ _ w2_progs w2_sched);
+    destruct a, b, d, e, f; vm_compute; reflexivity.
 Qed.
 
 Lemma refuted_mkdir_then_remove_results k : sc_mkdir_setmode k = true ->
   map (fun x => (lc_op x, lc_res x)) (lg_lin (ln_run k lin_init w2_progs w2_sched)) =
   [((None, Remove w_d), ROk); ((None, Mkdir w_d 493), RErr (EW KNotExist))].
-Proof. destruct k as [a b c d]; cbn [sc_open_split sc_mkdir_setmode sc_rmall_split]; intros ->. destruct a, b, d; vm_compute; reflexivity. Qed.
+Proof. destruct k as [a b c d e f]; cbn [sc_open_split sc_mkdir_setmode sc_rmall_split sc_chmod_split sc_chtimes_split]; intros ->. destruct a, b, d, e, f; vm_compute; reflexivity. Qed.
 
 Theorem refuted_removeall k : sc_rmall_split k = true -> refuted k w3_s0.
 Proof.
-  destruct k as [a b c d]; cbn [sc_open_split sc_mkdir_setmode sc_rmall_split]; intros ->. apply (refuted_by _ _ w3_progs w3_sched);
-    destruct a, b, c; vm_compute; reflexivity.
+  destruct k as [a b c d e f]; cbn [sc_open_split sc_mkdir_setmode sc_rmall_split sc_chmod_split sc_chtimes_split]; intros ->. apply (refuted_by _ _ w3_progs w3_sched);
+    destruct a, b, c, e, f; vm_compute; reflexivity.
+Qed.
+
+Theorem refuted_chmod_rename k : sc_chmod_split k = true -> refuted k w4_s0.
+Proof.
+  destruct k as [a b c d e f]; cbn [sc_chmod_split]; intros ->. apply (refuted_by _ _ w4_progs w4_sched);
+    destruct a, b, c, d, f; vm_compute; reflexivity.
+Qed.
+
+Theorem refuted_chtimes_rename k : sc_chtimes_split k = true -> refuted k w4_s0.
+Proof.
+  destruct k as [a b c d e f]; cbn [sc_chtimes_split]; intros ->. apply (refuted_by _ _ w5_progs w5_sched);
+    destruct a, b, c, d, e; vm_compute; reflexivity.
 Qed.
